@@ -38,7 +38,11 @@ def main():
         meta['demo_output_with_change'] = o1[-400:]
         rct, ot = sh('/venv/bin/python -m pytest -q -p no:cacheprovider --timeout=900 test/unit 2>&1 | tail -3', cwd=wt, env=env)
         meta['tests_with_change'] = ot.strip().splitlines()[-1] if ot.strip() else ''
-        passed = '161 passed' in ot or ('1 failed, 160 passed' in ot and 'Test_FPAdder_SP' in ot)
+        import re as _re
+        mp = _re.search(r'(?:(\d+) failed, )?(\d+) passed', ot)
+        nf, npass = (int(mp.group(1) or 0), int(mp.group(2))) if mp else (99, 0)
+        # a seeded commit may add tests of its own; the one inherently flaky repository test may fail
+        passed = (nf == 0 and npass >= 161) or (nf == 1 and npass >= 160 and 'Test_FPAdder_SP' in ot)
         meta['confirmed'] = bool(rc0 == 0 and rc1 != 0 and passed)
         results = {}
         for c in checks:
